@@ -66,6 +66,14 @@ def generate(rng, tier):
     names = list(enabled)
     wts = [enabled[k] for k in names]
     nsteps = rng.randint(3, 30 if tier == "quick" else 45)
+    if rng.random() < (0.001 if tier == "quick" else 0.003):
+        # a realistically large map (over a million samples), short history of the fitting steps
+        init["shape"] = rng.choice([[1024, 1024], [900, 1300], [1200, 1000]])
+        init["nan"]["kind"] = rng.choice(["none", "circle", "ragged"])
+        enabled = {"read": 2, "remove_piston": 1, "remove_tiptilt": 5, "remove_power": 2, "crop": 1}
+        names = list(enabled)
+        wts = [enabled[k] for k in names]
+        nsteps = rng.randint(2, 4)
     ops = []
     for _ in range(nsteps):
         k = rng.choices(names, wts)[0]
@@ -603,6 +611,15 @@ def _tilt_plane(np, ifg, before, after, mdl, i, k, bits, viol):
     lowp = lowp or _cfg.precision == np.float32
     if resid.size and not float(np.abs(resid).max()) <= (1e-4 if lowp else 1e-7) * mdl.scale:
         viol("tilt-plane", i, k, bits, resid=float(np.abs(resid).max()), scale=mdl.scale)
+    # "re-fitting the removed term to the result finds nothing": an independent least-squares refit
+    # of a plane to what is left, with or without an offset term (either model is a fair reading)
+    z = after[v].astype(float)
+    left = []
+    for cols in (A[:, :2], A):
+        cf, *_ = np.linalg.lstsq(cols, z, rcond=None)
+        left.append(max(abs(float(cf[0])), abs(float(cf[1]))))      # coordinates are scaled to |.| <= 1
+    if z.size and not min(left) <= (1e-3 if lowp else 1e-7) * mdl.scale:
+        viol("tilt-refit", i, k, bits, left=min(left), scale=mdl.scale)
 
 
 def _find_block(np, new, old, val):
